@@ -12,16 +12,18 @@ ID = "C20"
 RULE = (
     "Real forked processes under a controller that lets exactly one run between scheduling points (job start; in the shared temp "
     "directory: os.open incl. exclusive create, open, unlink/remove, rename, stat/lstat); all are fed the same temp-name sequence so "
-    "name collisions are forced; shards fix the first two scheduling decisions. Group 'imports2': 11 (quick 9) two-process create_db "
+    "name collisions are forced; shards fix the first two scheduling decisions. Group 'imports2': 13 (quick 11) two-process create_db "
     "job sets, ALL interleavings; job kinds: path, from_string, a duplicate-ID import that must fail, GTF with inference off, CDS-only "
-    "GTF, force=True over an existing file, file:// URL; outputs are same-named files in separate directories. 'imports2torn': two "
-    "imports of the identical string with the first write into a shared-directory file split in two, within 2 (quick) / 3 (thorough) "
-    "pre-emptions. 'imports3': 3 three-process sets within 1 / 2 pre-emptions. 'imports1': one solitary 13220-line import (12000 "
-    "second-level relations). The controller first runs a solitary import in the shared directory, which must leave nothing. Each "
-    "output is compared canonically with a solitary run, every process must end as expected, and the shared directory must end empty. "
-    "'readers': 2 and 3 concurrent readers of one finished database with additional points at connect, every statement, commit and "
-    "every row fetch, within 1 / 3 (2 readers) and 1 / 2 (3 readers) pre-emptions; every reader must succeed and see the full content. "
-    "Non-trivial = the schedule has more context switches than processes minus one (the solitary import always counts)."
+    "GTF, force=True over an existing file, file:// URL, verbose='debug', and an import writing '<the forced job's output>.2' in the "
+    "same directory; otherwise outputs are same-named files in separate directories. 'imports2torn': two imports of the identical "
+    "string with the first write into a shared-directory file split in two, within 2 (quick) / 3 (thorough) pre-emptions. 'imports3': 3 "
+    "three-process sets within 1 / 2 pre-emptions. 'imports1': one solitary 13220-line import (12000 second-level relations). Solitary "
+    "reference runs are made in forked children before the controller imports anything; the controller then runs a solitary import in "
+    "the shared directory, which must leave nothing. Each output is compared canonically with a solitary run, every process must end as "
+    "expected, and the shared directory must end empty. 'readers': 2 and 3 concurrent readers of one finished database with additional "
+    "points at connect, every statement, commit and every row fetch, within 1 / 3 (2 readers) and 1 / 2 (3 readers) pre-emptions; every "
+    "reader must succeed and see the full content. Non-trivial = the schedule has more context switches than processes minus one (the "
+    "solitary import always counts)."
 )
 ASSUMPTIONS = [
     "for the pair importing the same text as a string, the first write into a file in the shared directory is split in two with a "
